@@ -83,6 +83,8 @@ func (fe *FnEnc) postEnv(st *State, rets []RV) *Env {
 	}
 	if rets != nil {
 		fe.bindResults(env, fe.contract, rets)
+		// a postcondition may mention a local variable (its value at the return); parameters and results come first
+		env.useLocals = true
 	}
 	return env
 }
@@ -386,6 +388,11 @@ func (fe *FnEnc) trBool(ex Expr, env *Env) (res Term) {
 	defer func() {
 		if r := recover(); r != nil {
 			if se, ok := r.(specErr); ok {
+				// a callee's postcondition about one of its own locals says nothing to the caller: skipped, not an error
+				if env.pol == 1 && strings.HasPrefix(fe.qctx, "call.") && strings.HasPrefix(se.msg, "unknown name") {
+					res = tTrue
+					return
+				}
 				fe.unsupported("spec: %s in %s", se.msg, exprString(ex))
 				res = fe.fresh("specerr", sBool)
 				return
@@ -1163,6 +1170,16 @@ func (fe *FnEnc) trCall(x ECall, env *Env) SVal {
 		a := fe.mat(fe.tr(x.Args[0], env), env)
 		pathSafeFacts(fe, a.T)
 		return SVal{T: Term{app("path.safe", a.T), sBool}, Typ: types.Typ[types.Bool]}
+	case "digestNow": // the digest a digester reports now
+		v := fe.mat(fe.tr(x.Args[0], env), env)
+		k := v.T
+		if k.Sort == sIface {
+			k = ifVal(k)
+		}
+		return SVal{T: digestNowTerm(fe, env.state(), k), Typ: env.resolveType("digest.Digest")}
+	case "mtimeOf": // modification time last set for a path through os.Chtimes (ghost)
+		v := fe.mat(fe.tr(x.Args[0], env), env)
+		return SVal{T: tSel(fe.getComp(env.state(), "MT", arrSort(sStr, sInt)), v.T), Typ: env.resolveType("time.Time")}
 	case "fswrites": // number of file system mutations so far (ghost)
 		return SVal{T: fe.getComp(env.state(), "fswrites", sInt), Typ: types.Typ[types.Int]}
 	case "truncated": // a body was read through a LimitReader that cut it short
@@ -1313,6 +1330,19 @@ func (fe *FnEnc) trCall(x ECall, env *Env) SVal {
 		d1, v1, _, _, _ := fe.mapComps(env.cur, mt, false)
 		d0, v0, _, _, _ := fe.mapComps(env.old, mt, false)
 		return SVal{T: tAnd(tEq(tSel(tSel(d1, m), k), tSel(tSel(d0, m), k)), tEq(tSel(tSel(v1, m), k), tSel(tSel(v0, m), k))), Typ: types.Typ[types.Bool]}
+	case "frame_maps_but": // frame_maps_but(K, V, m): every map object of that type that existed before, except m (old value), is unchanged
+		kt := env.resolveType(exprName(x.Args[0]))
+		vt := env.resolveType(exprName(x.Args[1]))
+		mt := types.NewMap(kt, vt)
+		d1, v1, c1, _, _ := fe.mapComps(env.cur, mt, false)
+		d0, v0, c0, _, _ := fe.mapComps(env.old, mt, false)
+		oa := fe.getComp(env.old, "alloc", sInt)
+		e2 := *env
+		e2.inOld = true
+		ex := fe.mat(fe.tr(x.Args[2], &e2), &e2)
+		f := fmt.Sprintf("(forall ((r Int)) (! (=> (and (<= r %s) (not (= r %s))) (and (= (select %s r) (select %s r)) (= (select %s r) (select %s r)) (= (select %s r) (select %s r)))) :pattern ((select %s r)) :pattern ((select %s r)) :pattern ((select %s r))))",
+			oa.S, ex.T.S, d1.S, d0.S, v1.S, v0.S, c1.S, c0.S, d1.S, v1.S, c1.S)
+		return SVal{T: Term{f, sBool}, Typ: types.Typ[types.Bool]}
 	case "frame_maps":
 		kt := env.resolveType(exprName(x.Args[0]))
 		vt := env.resolveType(exprName(x.Args[1]))
